@@ -248,6 +248,8 @@ def run_errors(k, case, names):
             {"id": idn[0], "type": "field_name_suffix", "suffix": "_a"}, {"id": idn[1], "type": "field_name_suffix", "suffix": "_b"},
             {"id": idn[2], "type": "replace_string", "regex": "abc", "replacement": "abd"}]}
         if k == "tmplerr":
+            # (with an added condition: the rule then carries a detection of a randomly drawn name)
+            pipe["transformations"].append({"type": "add_condition", "conditions": {"idx": "main"}})
             pipe["postprocessing"] = [{"type": "template", "template": "{{ query }} /* {{ rule.to_dict() }} */"}]
             b = TextQueryTestBackend(ProcessingPipeline.from_dict(pipe), collect_errors=True)
             out = list(b.convert(SigmaCollection.from_dicts([rule])))
